@@ -132,13 +132,13 @@ def _worker(rec):
     p.start()
     b.close()
     res = None
-    if a.poll(12):
+    if a.poll(40):
         try:
             res = a.recv()
         except EOFError:
             res = {"text": render_decorated(rec), "problems": [{"kind": "crash", "message": "child process died"}]}
     else:
-        res = {"text": render_decorated(rec), "problems": [{"kind": "hang", "message": "loading did not finish within 12 s"}]}
+        res = {"text": render_decorated(rec), "problems": [{"kind": "hang", "message": "loading did not finish within 40 s"}]}
     if p.is_alive():
         p.kill()
     p.join()
